@@ -641,6 +641,41 @@ func init() {
 		hostile: func(t *rapid.T, seeds [][]byte) []byte {
 			s := rapid.SampledFrom(seeds).Draw(t, "seed")
 			pos := rapid.IntRange(1, len(s)).Draw(t, "pos")
+			if rapid.IntRange(0, 2).Draw(t, "relative") == 0 {
+				// a length prefix of every width whose value is just below / at / above what is left of the packet,
+				// at a generated position or where the MariaDB extended type info of the seed starts
+				if rapid.Bool().Draw(t, "at-ext") && len(s) > 14 {
+					pos = len(s) - 13
+					if s[0] == 1 {
+						pos = len(s) - 13 - 1 // the seeds with the flag carry extended info in front of the fixed part
+					}
+				}
+				tail := s[pos:]
+				if rapid.Bool().Draw(t, "cut-tail") {
+					tail = tail[:rapid.IntRange(0, len(tail)).Draw(t, "tail-len")]
+				}
+				width := rapid.SampledFrom([]int{1, 3, 4, 9}).Draw(t, "width")
+				v := len(tail) + width + rapid.IntRange(-width-3, 3).Draw(t, "delta")
+				if v < 0 {
+					v = 0
+				}
+				var pre []byte
+				switch width {
+				case 1:
+					pre = []byte{byte(v % 251)}
+				case 3:
+					pre = []byte{0xfc, byte(v), byte(v >> 8)}
+				case 4:
+					pre = []byte{0xfd, byte(v), byte(v >> 8), byte(v >> 16)}
+				default:
+					pre = []byte{0xfe, byte(v), byte(v >> 8), byte(v >> 16), byte(v >> 24), 0, 0, 0, 0}
+				}
+				flag := s[0]
+				if rapid.IntRange(0, 3).Draw(t, "force-ext") > 0 {
+					flag = 1
+				}
+				return cat([]byte{flag}, s[1:pos], pre, tail)
+			}
 			out := append(append([]byte(nil), s[:pos]...), drawHostileLenenc(t)...)
 			if rapid.Bool().Draw(t, "keep") {
 				out = append(out, s[pos:]...)
